@@ -167,4 +167,16 @@ def toObj (o : SigObjD) (sigKeyOk : Bool) (sigInput : Bytes) (eeSigOk : Bool) : 
   { attrs := o.attrs, contentType := o.contentType, content := o.content, sid := o.sid,
     sigKeyOk, sigInput, ee := toFacts o.cert false true eeSigOk }
 
+/-- the address ranges `RouteOriginAttestation::verify` checks, read from the eContent octets (IPv4 ranges in 32
+bits, IPv6 in 128): what `Roa::process` hands to the coverage check -/
+def roaRanges (content : Bytes) : Option (List SigObj.RoaAddr × List SigObj.RoaAddr) :=
+  match Roa.decodeContent content with
+  | none => none
+  | some c =>
+    match Roa.iter c.v4, Roa.iter c.v6 with
+    | some l4, some l6 =>
+      some (l4.map (fun a => ⟨a.addr / 2 ^ 96, IpDer.toMax a.addr a.len / 2 ^ 96⟩),
+            l6.map (fun a => ⟨a.addr, IpDer.toMax a.addr a.len⟩))
+    | _, _ => none
+
 end Rpki.CmsDer
